@@ -12,7 +12,7 @@ EXHAUSTIVE = {"quick": "all 700 datasets of <=2 rankings over 3 elements x 7 Bio
 ASSUMPTIONS = ["threshold experiments use unit 1024 (penalties are multiples of 1/1024: gains of 1/1024 may remain, "
                "2/1024 may not)", "move-by-move conformance with spec/LocalSearch.tla is in the un-jitted twin stage"]
 BIO = ["BioConsert", "BioCo", "Bio[Borda]", "Bio[Copeland,KwikSort]", "Bio[PickAPerm]", "Bio[PickAPerm,Copeland]",
-       "Bio[Borda,Copeland,KwikSort]"]
+       "Bio[Borda,Copeland,KwikSort]", "Bio[Borda,BordaBid]"]
 SCHEMES = [ac.P_UNI5, ac.P_IND1, ac.P_PSE5, ac.P_UNI1, ac.P_EXT, ac.P_IND5]
 # unit 1024: B[1] = 1024 (=1.0), ties cost 1.0 +- 1/1024, 2/1024
 FINE = [([0, 1024, 1025, 0, 1024, 1024], [1024, 1024, 0, 1024, 1024, 0], 1024),
@@ -53,6 +53,10 @@ def stages(tier, rng, only=None):
     n_rand = 400 if tier == "quick" else 4000
     out.append(ac.stage("random", PID, lambda: ac.cases([ac.random_dataset(rng, 7, 6, nmin=3) for _ in range(n_rand)],
                                                         BIO, SCHEMES + ac.grid_sample(rng, 8)), _nt))
+    out.append(ac.stage("tiny_penalties", PID, lambda: ac.cases(
+        [ac.random_dataset(rng, 6, 6, nmin=3) for _ in range(n_rand // 2)], BIO, ac.TINY), _nt))
+    out.append(ac.stage("cycles", PID, lambda: ac.cases(
+        [ac.cyclic_dataset(rng, 3, 6, incomplete=k % 2 == 1) for k in range(n_rand // 2)], BIO, SCHEMES), _nt))
     out.append(ac.stage("threshold", PID, lambda: ac.cases([ac.random_dataset(rng, 5, 4, nmin=3) for _ in range(n_rand)],
                                                            BIO, FINE), _nt))
     if tier == "thorough":
